@@ -80,6 +80,10 @@ def cases(tier, seed):
                 out.append({"key": f"col-large/{m}x{n}/b={bs}/{cs}", "ep": "col", "m": m, "n": n, "cond": 10.0, "tol": 1e-6, "bs": bs, "cs": cs, "large": True})
             out.append({"key": f"row-large/{n}x{m}/b={bs}", "ep": "row", "m": n, "n": m, "cond": 10.0, "tol": 1e-6, "bs": bs, "cs": "qr", "large": True})
         out.append({"key": f"hyb-large/{m}x{n}", "ep": "hyb", "m": m, "n": n, "cond": 10.0, "tol": 1e-6, "p": 3, "T": 3, "r": 8, "cs": "qr", "large": True})
+    # CGNE needs more than 100 iterations on larger ill-conditioned inputs (periodic code paths inside the loop)
+    for (m, n, cnd) in ((40, 30, 1000.0), (48, 40, 300.0)):
+        for tol in (1e-3, 1e-6):
+            out.append({"key": f"cgne-large/{m}x{n}/c={cnd:g}/tol={tol:g}", "ep": "cgne", "m": m, "n": n, "cond": cnd, "tol": tol, "pr": 0, "large": True, "S1": True})
     for c in out:
         c["S"] = 3 if tier == "quick" else 12
         c["MAXIT"] = 150 if tier == "quick" else 600
@@ -127,7 +131,7 @@ def run_case(case, seed):
     Aplus = O.pinv(A)
     nAp2 = 1.0 / min(vals)
     condA = max(vals) / min(vals)
-    S = case.get("S", 4)
+    S = 1 if case.get("S1") else case.get("S", 4)
     MAXIT = case.get("MAXIT", 200)
     fails = []
     evals = 0
